@@ -60,7 +60,7 @@ class Faults(object):
 
 
 def conversation(sx, typ, fsci, fwi, tx_size, clens, rlens, wtx, budget, kinds, go_on=False,
-                 wtx_in_chain=False, wtx_counts=(1,), ats_layouts=None):
+                 wtx_in_chain=False, wtx_counts=(1,), ats_layouts=None, wtx_in_cmd_chain=False):
     w = worlds.T4World(sx, 0x20, 255, 255, 16, 3, typ=typ, fsci=fsci, fwi=fwi,
                        tx_size=tx_size, wtx_at=wtx, fill=0x41)
     card = w.sim
@@ -74,6 +74,9 @@ def conversation(sx, typ, fsci, fwi, tx_size, clens, rlens, wtx, budget, kinds, 
     if tag is None:
         sx.check(False, "activate-returned-none")
     card.wtx_in_chain = wtx_in_chain
+    card.wtx_in_cmd_chain = wtx_in_cmd_chain
+    if wtx_in_cmd_chain:
+        sx.reach("wtx_during_command_chaining")
     if wtx:
         # number of consecutive waiting-time extensions the card asks for
         card.wtx_count = sx.pick("wtx_count", list(wtx_counts))
@@ -237,6 +240,9 @@ def partitions(tier):
     P.append(dict(name="A:no-retry-budget", fn="conversation",
                   params=dict(typ="A", fsci=2, fwi=14, tx_size=29, clens=["1m+1"], rlens=["1m+1"],
                               wtx=[], budget=1, kinds=kinds)))
+    P.append(dict(name="A:wtx-in-command-chain", fn="conversation",
+                  params=dict(typ="A", fsci=2, fwi=4, tx_size=29, clens=["2m+1", 2], rlens=[2, 1],
+                              wtx=[], budget=1, kinds=kinds, wtx_in_cmd_chain=True)))
     P.append(dict(name="A:wtx-in-response-chain", fn="conversation",
                   params=dict(typ="A", fsci=2, fwi=4, tx_size=29, clens=[2], rlens=["2m+1"],
                               wtx=[], budget=1, kinds=kinds, wtx_in_chain=True)))
@@ -248,7 +254,7 @@ def partitions(tier):
 
 
 MUST_REACH = ["apdu_completed", "completed_despite_faults", "tag_command_error",
-              "command_chained", "response_chained", "wtx", "apdu_after_failed_exchange", "failed_exchange_never_reached_the_card", "wtx_during_response_chaining", "wtx_repeated", "wtx_with_power_level_bits", "ats_layout_varied"]
+              "command_chained", "response_chained", "wtx", "apdu_after_failed_exchange", "failed_exchange_never_reached_the_card", "wtx_during_response_chaining", "wtx_during_command_chaining", "wtx_repeated", "wtx_with_power_level_bits", "ats_layout_varied"]
 BOUNDS = {"quick": "<=2 faults per conversation out of {command lost, response lost, response garbled} at each of the first 24 blocks; FSCI 0/2/3; command/response lengths around multiples of FSC-3 (chaining both ways, three blocks each way at FWI 11); 1-3 consecutive APDUs; 1..9 consecutive S(WTX) (more than the retry budget), S(WTX) inside a chained response; FWI 4, 7, 10, 11 and 14 (retry budgets 5, 3, 1, 0); ATS with every subset of TA(1)/TB(1)/TC(1) and a card that needs 60 % of its announced frame waiting time; Type 4A and 4B; APDU and response bytes symbolic.  Absorption is judged per block: no block hit more often than the budget",
           "thorough": "<=3 faults; FSCI 0/2/3/5/8"}
 OUTSIDE = ["CID/NAD", "extended length APDUs", "more than 24 blocks per conversation", "FSD below 256"]
